@@ -11,114 +11,14 @@ Core tactics only.
 namespace OH.Proofs.EvalSpec
 open OH.Model OH.Model.Cal
 
-/-! ### `add_days_saturating` -/
-
-theorem repr_minDay : minDay ≤ minDay ∧ minDay ≤ maxDay := by
-  rw [minDay_eq, maxDay_eq]; omega
-
-theorem repr_maxDay : minDay ≤ maxDay ∧ maxDay ≤ maxDay := by
-  rw [minDay_eq, maxDay_eq]; omega
-
-theorem repr_dateEnd : minDay ≤ dateEnd ∧ dateEnd ≤ maxDay := by
-  rw [minDay_eq, maxDay_eq, dateEnd_eq]; omega
-
-/-- the three cases of `add_days_saturating` -/
-theorem addDaysSat_cases (d n : Int) :
-    ((-106751991167 ≤ n ∧ n ≤ 106751991167) ∧ (minDay ≤ d + n ∧ d + n ≤ maxDay) ∧ addDaysSat d n = d + n)
-    ∨ (¬ ((-106751991167 ≤ n ∧ n ≤ 106751991167) ∧ (minDay ≤ d + n ∧ d + n ≤ maxDay)) ∧ n < 0 ∧ addDaysSat d n = minDay)
-    ∨ (¬ ((-106751991167 ≤ n ∧ n ≤ 106751991167) ∧ (minDay ≤ d + n ∧ d + n ≤ maxDay)) ∧ 0 ≤ n ∧ addDaysSat d n = maxDay) := by
-  by_cases hn : -106751991167 ≤ n ∧ n ≤ 106751991167
-  · by_cases hr : minDay ≤ d + n ∧ d + n ≤ maxDay
-    · exact Or.inl ⟨hn, hr, addDaysSat_eq hn hr.1 hr.2⟩
-    · have e : addDays? d n = none := addDays?_eq_none_iff.2 hr
-      unfold addDaysSat
-      rw [if_neg (by omega), e]
-      simp only []
-      by_cases h0 : n < 0
-      · rw [if_pos h0]; exact Or.inr (Or.inl ⟨fun h => hr h.2, h0, rfl⟩)
-      · rw [if_neg h0]; exact Or.inr (Or.inr ⟨fun h => hr h.2, by omega, rfl⟩)
-  · unfold addDaysSat
-    rw [if_pos (by omega)]
-    by_cases h0 : n < 0
-    · rw [if_pos h0]; exact Or.inr (Or.inl ⟨fun h => hn h.1, h0, rfl⟩)
-    · rw [if_neg h0]; exact Or.inr (Or.inr ⟨fun h => hn h.1, by omega, rfl⟩)
-
-theorem addDaysSat_of_not_repr_neg {d n : Int}
-    (h : ¬ ((-106751991167 ≤ n ∧ n ≤ 106751991167) ∧ (minDay ≤ d + n ∧ d + n ≤ maxDay))) (h0 : n < 0) :
-    addDaysSat d n = minDay := by
-  rcases addDaysSat_cases d n with c | c | c
-  · exact absurd ⟨c.1, c.2.1⟩ h
-  · exact c.2.2
-  · omega
-
-theorem addDaysSat_of_not_repr_nonneg {d n : Int}
-    (h : ¬ ((-106751991167 ≤ n ∧ n ≤ 106751991167) ∧ (minDay ≤ d + n ∧ d + n ≤ maxDay))) (h0 : 0 ≤ n) :
-    addDaysSat d n = maxDay := by
-  rcases addDaysSat_cases d n with c | c | c
-  · exact absurd ⟨c.1, c.2.1⟩ h
-  · omega
-  · exact c.2.2
-
-theorem addDaysSat_repr (d n : Int) (hd : minDay ≤ d ∧ d ≤ maxDay) :
-    minDay ≤ addDaysSat d n ∧ addDaysSat d n ≤ maxDay := by
-  have _ := hd      -- not needed: a non-representable sum saturates
-  rcases addDaysSat_cases d n with c | c | c
-  · rw [c.2.2]; exact c.2.1
-  · rw [c.2.2]; exact repr_minDay
-  · rw [c.2.2]; exact repr_maxDay
-
 /-! ### `DateOffset::apply` -/
 
 /-- `DateOffset::apply` never trips its two `debug_assert!`s and stays representable, for any
 (unbounded) day offset -/
 theorem apply_total (o : DateOffset) (hw : o.wday.wf = true) (d : Int) (hd : minDay ≤ d ∧ d ≤ maxDay) :
     ∃ r, o.apply d = .ok r ∧ minDay ≤ r ∧ r ≤ maxDay := by
-  have h1 := addDaysSat_repr d o.days hd
-  unfold DateOffset.apply
-  simp only []
-  generalize addDaysSat d o.days = d1 at h1
-  cases hwd : o.wday with
-  | none => exact ⟨d1, rfl, h1⟩
-  | prev t =>
-    rw [hwd] at hw
-    simp only [WdayOffset.wf, decide_eq_true_eq] at hw
-    simp only []
-    have hr := addDaysSat_repr d1 (-(((7 + weekday d1 - t) % 7 : Nat) : Int)) h1
-    have hc : (weekday (addDaysSat d1 (-(((7 + weekday d1 - t) % 7 : Nat) : Int))) == t % 7
-        || addDaysSat d1 (-(((7 + weekday d1 - t) % 7 : Nat) : Int)) == minDay) = true := by
-      rcases addDaysSat_cases d1 (-(((7 + weekday d1 - t) % 7 : Nat) : Int)) with c | c | c
-      · rw [c.2.2]
-        simp only [Bool.or_eq_true, beq_iff_eq]
-        left
-        have := weekday_lt d1
-        unfold weekday at *
-        omega
-      · rw [c.2.2]; simp
-      · have h0 : (((7 + weekday d1 - t) % 7 : Nat) : Int) = 0 := by omega
-        exfalso
-        apply c.1
-        rw [h0]
-        exact ⟨by omega, by simpa using h1⟩
-    rw [if_pos hc]
-    exact ⟨_, rfl, hr⟩
-  | next t =>
-    rw [hwd] at hw
-    simp only [WdayOffset.wf, decide_eq_true_eq] at hw
-    simp only []
-    have hr := addDaysSat_repr d1 (((7 + t - weekday d1) % 7 : Nat) : Int) h1
-    have hc : (weekday (addDaysSat d1 (((7 + t - weekday d1) % 7 : Nat) : Int)) == t % 7
-        || addDaysSat d1 (((7 + t - weekday d1) % 7 : Nat) : Int) == maxDay) = true := by
-      rcases addDaysSat_cases d1 (((7 + t - weekday d1) % 7 : Nat) : Int) with c | c | c
-      · rw [c.2.2]
-        simp only [Bool.or_eq_true, beq_iff_eq]
-        left
-        have := weekday_lt d1
-        unfold weekday at *
-        omega
-      · omega
-      · rw [c.2.2]; simp
-    rw [if_pos hc]
-    exact ⟨_, rfl, hr⟩
+  have _ := hd
+  exact ⟨_, apply_eq_shift o hw d, shift_repr o d⟩
 
 /-! ### `date_on_year` -/
 
@@ -367,7 +267,8 @@ theorem weekFilter_total (r : WeekRange) (hwf : r.wf = true) (d : Int) :
 theorem wdayFixedSimple_total (lo hi : Nat) (off : Int) (ns ne : List Bool) (d : Int)
     (hns : ns.length = 5) (hne : ne.length = 5) (hd : minDay ≤ d ∧ d ≤ maxDay) :
     ∃ b, wdayFixedSimple lo hi off ns ne d = .ok b := by
-  have hr := addDaysSat_repr d (satNeg off) hd
+  have _ := hd
+  have hr := addDaysSat_repr d (satNeg off)
   unfold wdayFixedSimple
   generalize addDaysSat d (satNeg off) = d' at hr
   simp only [countDaysInMonth_eq _ hr.1 hr.2, ok_bind, pure_eq_ok]
